@@ -23,3 +23,4 @@ def run(ck):
     sampling.r16_skip_only_on_zero_mask_word(ck, P)
     floatmask.r11b_blend_degrees_8bit(ck, P)
     status.r_same_storage_needs_same_stride(ck, P, 'C01-R13')   # the pixbuf fast paths replace the general source-in-mask pipeline
+    sampling.r17_cursor_step_follows_pipeline(ck, P, 'C01-R14')
